@@ -52,7 +52,7 @@ PROPS = {"C04": dict(
               "Zrnt.Proofs.C04.fixedLen_iff_isFixed", "Zrnt.Proofs.C04.encode_size_of_isFixed",
               "Zrnt.Proofs.C04.decode_some_imp_canonical", "Zrnt.Proofs.C04.decode_injective",
               "Zrnt.Proofs.C04.decode_list_within_limit", "Zrnt.Proofs.C04.encode_injective",
-              "Zrnt.Proofs.C04.schema_types_legal", "Zrnt.Proofs.C04.schema_round_trip",
+              "Zrnt.Proofs.C04.schema_types_legal", "Zrnt.Proofs.C04.schema_round_trip", "Zrnt.Proofs.C04.limits_agree_for_all_configs",
               "Zrnt.Proofs.C04.ssz_methods_agree", "Zrnt.Proofs.C04.ssz_types_complete"],
     modes=[dict(name="ssz")],
     level="proof",
